@@ -283,4 +283,5 @@ void h_valid_phy_encoding(void) { valid_phy_encoding(nondet_u8()); BT_CANARY(); 
 void h_handle_phy_request(void) { SETUP; struct wbuf* p; struct rbuf* w; bool* c; handle_phy_request(s, W_op, W_size, p, w, c); BT_CANARY(); }
 '''
 def unit(enforce, name='events', **kw):
-    d = dict(name=name, extracts=EX, code=CODE, object_bits=10, enforce=enforce, replace=['valid_phy_encoding'] if 'handle_phy_request' in enforce else []); d.update(kw); return d
+    # handle_received_data's loop contract yields obligations only where that function is under enforcement
+    d = dict(name=name, extracts=EX, code=CODE, object_bits=10, enforce=enforce, extra_loops=0 if 'handle_received_data' in enforce else -1, replace=['valid_phy_encoding'] if 'handle_phy_request' in enforce else []); d.update(kw); return d
